@@ -348,17 +348,19 @@ def rule_r4(ctx) -> RuleResult:
     if len(adds) != 1:
         raise AnalysisError("add_default_templates: expected one add_page call")
     a = adds[0]
-    guard = _enclosing_if(ctx, "dumpparser", _stmt_of(ctx, "dumpparser", a))
-    if guard is not None and isinstance(guard.test, ast.UnaryOp) and isinstance(guard.test.op, ast.Not) \
-            and isinstance(guard.test.operand, ast.Call) and unparse(guard.test.operand.func).endswith(".page_exists"):
-        gk = [unparse(x) for x in guard.test.operand.args[:2]]
-        wk = [unparse(x) for x in a.args[:2]]
-        if gk == wk:
-            rr.ok(fnname, "if not page_exists({}): add_page({})".format(", ".join(gk), ", ".join(wk)))
-        else:
-            rr.bad(Finding("C12.R4", DUMP, fnname, unparse(a)[:80], "absence test key {} differs from the key written {}".format(gk, wk), a.lineno))
+    # the add is reached only when page_exists(<the key written>) was false: `if not page_exists(k): add` or
+    # `if page_exists(k): continue` before it
+    from . import _expand as X
+    conds = X.path_conditions(ctx.index.mod("dumpparser").parents, _stmt_of(ctx, "dumpparser", a))
+    probes = [(t, truth) for t, truth in conds if isinstance(t, ast.Call) and unparse(t.func).endswith(".page_exists")]
+    wk = [unparse(x) for x in a.args[:2]]
+    if any(truth is False and [unparse(x) for x in t.args[:2]] == wk for t, truth in probes):
+        rr.ok(fnname, "add_page({}) only when page_exists of the same key is false".format(", ".join(wk)))
+    elif any(truth is False for t, truth in probes):
+        gk = [[unparse(x) for x in t.args[:2]] for t, truth in probes if truth is False][0]
+        rr.bad(Finding("C12.R4", DUMP, fnname, unparse(a)[:80], "absence test key {} differs from the key written {}".format(gk, wk), a.lineno))
     else:
-        rr.bad(Finding("C12.R4", DUMP, fnname, unparse(guard.test) if guard is not None else unparse(a)[:80],
+        rr.bad(Finding("C12.R4", DUMP, fnname, unparse(a)[:80],
                        "the default template is not added under a plain `not page_exists(title, ns)` test: an existing page "
                        "(for instance a redirect from the dump) can be overwritten", a.lineno))
     commits = [n for n in fn.body if isinstance(n, ast.Expr) and isinstance(n.value, ast.Call) and unparse(n.value.func).endswith("db_conn.commit")]
